@@ -203,6 +203,7 @@ class Image:
 
 
 TRACK = None          # when a list: every SparseFile created is appended (C09 collects their mutation logs)
+LOG_NEW = False       # when True: every SparseFile created logs its read() calls from the start (C13 records what the constructors read)
 PERMISSIVE = False    # when True: write()/truncate() are recorded and *accepted* (like a handle opened r+b) instead of raising
 
 
@@ -215,7 +216,7 @@ class SparseFile(io.RawIOBase):
         self._pos = 0
         self.bytes_read = 0
         self.n_reads = 0
-        self.calls = log if log is not None else None
+        self.calls = log if log is not None else ([] if LOG_NEW else None)
         self.mutations: list[str] = []
         if name is not None:
             self.name = name
